@@ -405,6 +405,15 @@ def run_batch(prop, scen_name, tier, base_seed, n_runs, wall_budget, jobs=16, sr
         # final confirmation from the file, in a fresh process
         rep, rres = replay_file(path)
         if sig in _sigs(rres):
+            # the file is the artefact: record the digest of the run it produces and require a second
+            # replay (again a fresh process) to reproduce signature and digest exactly
+            write_replay(prop, scen_name, mcase, seed, mchoices, rres, sig)
+            rep, rres2 = replay_file(path)
+            if sig not in _sigs(rres2) or rres2.get('digest') != rres.get('digest'):
+                agg['errors'] += 1
+                err_samples.append({'replay-not-exact': sig, 'seed': seed, 'replay': path,
+                                    'digests': [rres.get('digest'), rres2.get('digest')]})
+                continue
             new_violations += 1
             replay_paths.append(path)
             lines.append('VIOLATION property=%s replay=%s' % (prop, path))
